@@ -18,6 +18,11 @@ pub fn judge_roundtrip(p0: &Packet, mode: &Mode, origin: &str) -> Result<Vec<u8>
     let d0 = format!("{p0:?}");
     let kind = d0.split(|c| c == '(' || c == ' ').next().unwrap_or("?").to_string();
     let e1 = encode_one(p0, mode).map_err(|e| Fail::new(format!("c01:encode-refused:{kind}"), format!("{origin}: in-domain packet cannot be encoded: {e}: {d0}")))?;
+    // encoding is a function of the packet: the same packet encoded again gives the same bytes
+    let e1b = encode_one(p0, mode).map_err(|e| Fail::new(format!("c01:encode-refused:{kind}"), format!("{origin}: second encoding refused: {e}")))?;
+    if e1b != e1 {
+        return Err(Fail::new(format!("c01:encoding-not-repeatable:{kind}"), format!("{origin}: the same packet encodes to {} and then to {}", hex(&e1), hex(&e1b))));
+    }
     let p1 = decode_one(&e1, mode).map_err(|e| Fail::new(format!("c01:own-frame-rejected:{kind}"), format!("{origin}: {e}: frame {} from {d0}", hex(&e1))))?;
     let d1 = format!("{p1:?}");
     if d1 != d0 && !same_up_to_set_order(&d0, &d1) {
@@ -486,6 +491,44 @@ fn set_api_strategy() -> impl Strategy<Value = SetApiCase> {
     (0u8..4, any::<bool>(), proptest::collection::vec(op, 1..14)).prop_map(|(container, compressed, ops)| SetApiCase { container, compressed, ops })
 }
 
+
+// ------------------------------------------------------------------ the same text in a raw and in a codepage field
+/// IS_ISI carries the admin password raw (UTF-8 bytes as they are) and the program name codepage-encoded. The same non-ASCII
+/// text in both - and the packet encoded more than once, as on every reconnect - must come back unchanged from both fields.
+pub struct SameText;
+impl Part for SameText {
+    type Case = (String, bool);
+    fn name(&self) -> &'static str {
+        "same-text-in-raw-and-coded-field"
+    }
+    fn check(&self, c: &(String, bool), ev: &mut Local) -> Result<(), Fail> {
+        let mode = if c.1 { Mode::Compressed } else { Mode::Uncompressed };
+        let mut isi = insim::insim::Isi::default();
+        isi.admin = c.0.clone();
+        isi.iname = c.0.clone();
+        let p = Packet::Isi(isi);
+        let mut first: Option<Vec<u8>> = None;
+        for round in 0..3 {
+            let e = judge_roundtrip(&p, &mode, "ISI with the same text as password and program name")?;
+            match &first {
+                None => first = Some(e),
+                Some(f) => ensure!(*f == e, "c01:encoding-not-repeatable:Isi", "round {round}: {} then {}", hex(f), hex(&e)),
+            }
+        }
+        ev.nontrivial(c);
+        if ev.wants_sample() && !c.0.is_ascii() {
+            ev.sample(|| json!({"text": c.0, "mode": mode_name(&mode), "frame": first.as_ref().map(|f| hex(f))}));
+        }
+        Ok(())
+    }
+    fn to_json(&self, c: &(String, bool)) -> Value {
+        json!({"text": c.0, "compressed": c.1})
+    }
+    fn from_json(&self, v: &Value) -> Option<(String, bool)> {
+        Some((v.get("text")?.as_str()?.to_string(), v.get("compressed")?.as_bool()?))
+    }
+}
+
 /// caret-free text over ASCII + the union repertoire (C10's faithful domain). Trailing content is arbitrary.
 pub fn field_text_strategy() -> impl Strategy<Value = String> {
     let tables = cp::tables();
@@ -506,7 +549,7 @@ pub fn field_text_strategy() -> impl Strategy<Value = String> {
 }
 
 pub fn parts() -> Vec<Box<dyn DynPart>> {
-    vec![Box::new(Route1), Box::new(Route2), Box::new(TextFields), Box::new(SetApi), Box::new(crate::props::c03::OneCodec("c01"))]
+    vec![Box::new(Route1), Box::new(Route2), Box::new(TextFields), Box::new(SetApi), Box::new(crate::props::c03::OneCodec("c01")), Box::new(SameText)]
 }
 
 pub fn run(run: &mut Run) {
@@ -537,6 +580,13 @@ pub fn run(run: &mut Run) {
     // (4) histories of calls on the public set APIs (insert / remove / clear / from_bits), round trip after every call
     let n = run.budget(40_000, 2_000_000);
     run.prop(&SetApi, set_api_strategy(), n);
+    // (4b) the same short non-ASCII text in ISI's raw and coded field, encoded three times
+    let strat = (field_text_strategy(), any::<bool>()).prop_map(|(t, compressed)| {
+        // at most 4 characters: 12 UTF-8 bytes raw, at most 16 bytes coded (a marker in front of each)
+        (t.chars().take(4).collect::<String>(), compressed)
+    });
+    let n = run.budget(30_000, 1_000_000);
+    run.prop(&SameText, strat, n);
     // (5) a connection encodes all its packets with one codec: whatever it was asked to encode before (refused packets among
     // them), a packet's frame must be the one a fresh codec produces, and read back alike
     let n = run.budget(30_000, 1_500_000);
